@@ -138,6 +138,20 @@ CLAIMED = {
         "note": "lmfit.Parameters/MinimizerResult and pandas.DataFrame replaced by name->value stand-ins; <=3 (4) elements; one known finding "
                 "(variable naming of equally labelled elements of different types)",
     },
+    "C18": {
+        "category": "model_checking",
+        "text": "(a) Lemma, fully symbolic: for every 0<=i<=total, total>=1, 0<N<=100, force flag and previous state (-1 or any value in [0,1]) the "
+                "real _update_every_N_percent reports only fractions within [0,1] with a message and leaves its state at -1 or within [0,1]; "
+                "Progress.increment raises iff the count exceeds the total. (b) The real perform_zhit driver over the product of smoothing (5+auto+"
+                "unknown) x interpolation (4+auto+unknown) x window (auto/named/unknown) x custom weights x representation x num_procs x symbolic "
+                "num_points/polynomial_order, and the real evaluate_log_F_ext driver over 7 test kinds (+unknown) x num_RCs x options x "
+                "num_F_ext_evaluations (negative, zero, positive, too few) x limits x located minima, run with their numerical kernels stubbed: "
+                "an option combination is refused by TypeError/ValueError before the first kernel runs (or by the library's own error type) or "
+                "completes; the progress count never exceeds the precomputed total and every callback fraction lies within [0,1].",
+        "design_ref": "DESIGN.md section 4, C18",
+        "note": "numerical kernels replaced by shape-correct stubs (failures inside real numerics are outside); fit_circuit and calculate_drt "
+                "drivers are not covered; option products are enumerated by solver-driven choices (bounded exhaustive), only the lemma is fully symbolic",
+    },
     "C20": {
         "category": "other",
         "text": "Circuit shapes (every series/parallel nest of <=3 (4) leaves within depth 2 (3), direct construction incl. single-item connections, "
